@@ -21,7 +21,10 @@ TRACKED_ROUTES = [
     "ilshift", "irshift", "iand", "ior", "ixor", "imatmul",
     "fill", "put", "sort", "partition", "byteswap_inplace", "np_put", "shuffle", "idiom_slice_iadd", "idiom_col_imul", "imul_neg", "setitem_partial_fail",
     "setitem_empty_tuple", "setitem_tuple_of_arrays", "setitem_newaxis", "setitem_bool_scalar", "setitem_mask_row",
+    "put_partial_fail", "idiv_partial_fail", "byteswap_keyword",
 ]
+# routes that raise AFTER numpy has already stored part of the result: the array went through its own method all the same
+PARTIAL_FAIL = {"setitem_partial_fail", "put_partial_fail", "idiv_partial_fail"}
 # routes numpy offers that bypass every overridden method (recorded findings on the unchanged tree)
 UNTRACKED_ROUTES = [
     "copyto", "ufunc_out", "ufunc_at", "flat_assign", "fill_diagonal", "clip_out", "cumsum_out",
@@ -175,6 +178,22 @@ def _write(route, x, mir, p):
         if x.dtype.kind == "u":
             raise Inapplicable()
         x *= -1  # mirrors a flat mesh: 0.0 becomes -0.0, one bit per zero
+    elif route == "put_partial_fail":
+        # numpy checks the indices while it writes: the first items are stored, then the bad index raises
+        x.put([0, min(1, x.size - 1), x.size + 5], [v, v, v])
+    elif route == "idiv_partial_fail":
+        # a floating point trap (the caller asked numpy to raise on division by zero): everything is divided, then it raises
+        div = np.full(x.shape[-1] if x.ndim else 1, 2, dtype=x.dtype)
+        div[-1] = 0
+        with np.errstate(divide="raise", invalid="raise"):
+            if x.dtype.kind == "f":
+                x /= div
+            else:
+                x //= div
+    elif route == "byteswap_keyword":
+        if x.dtype.itemsize < 2:
+            raise Inapplicable()
+        x.byteswap(inplace=True)
     elif route == "itruediv":
         if x.dtype.kind != "f":
             raise Inapplicable()
@@ -684,7 +703,7 @@ class C02(World):
             if exc_a:
                 ctx.count("exc:" + exc_a)
             self._after_write(hs, before, hi, route)
-            if h.tracked and route in TRACKED_ROUTES and (exc_a is None or route == "setitem_partial_fail"):
+            if h.tracked and route in TRACKED_ROUTES and (exc_a is None or route in PARTIAL_FAIL):
                 # (a write that failed half way went through the array's own method all the same)
                 h.m_dirty = True
             ctx.count(("fault:" if route in UNTRACKED_ROUTES or not h.tracked else "route:") + route)
